@@ -10,13 +10,15 @@ raw-preserving token model of Model/Format.lean:
 * PreserveRawStrings / EscapeForHTML / EscapeForJS : every string token is respelled by
   `Quote.reformatString` (slice C11) unless it is preserved verbatim.
 
-Both validation options are predicates on the token list (`tokensOK`), so they are invariant under
+The duplicate-name test runs on the tree of the tokens (slice C13's `Canon.parse`; every accepted token list is the
+token list of a tree: `accepts_is_tree`).  Both validation options are predicates on the token list (`tokensOK`), so they are invariant under
 re-rendering.  CanonicalizeRaw* and ReorderRawObjects are not modelled (validated by the harness).
 Core Lean only.
 -/
 import JsonV.Model.Format
 import JsonV.Model.Validate
 import JsonV.Model.Quote
+import JsonV.Model.Canon
 
 namespace JsonV.Fmt
 open JsonV.Model
@@ -42,28 +44,28 @@ def strOK (o : FOpts) : Tok → Bool
 def nameKey (o : FOpts) (raw : Bytes) : Bytes :=
   Validate.unescapedName raw (Validate.valueString ⟨o.allowInvalidUTF8, o.allowDup⟩ raw).2.1
 
-/-- No object has two members with the same key.  `seen` holds the keys of the open objects, innermost first;
-a string is a name exactly when the grammar state is `obj0`/`objV`. -/
-def namesOK (key : Bytes → Bytes) : Stack → List (List Bytes) → List Tok → Bool
-  | _, _, [] => true
-  | st, seen, t :: ts =>
-    match step st t with
-    | none => false
-    | some (_, st') =>
-      match t with
-      | .bo => namesOK key st' ([] :: seen) ts
-      | .eo => namesOK key st' seen.tail ts
-      | .str raw =>
-        match st, seen with
-        | f :: _, cur :: seen' =>
-          if f = .obj0 ∨ f = .objV then
-            if cur.contains (key raw) then false else namesOK key st' ((key raw :: cur) :: seen') ts
-          else namesOK key st' seen ts
-        | _, _ => namesOK key st' seen ts
-      | _ => namesOK key st' seen ts
+mutual
+/-- No object of the tree has two members whose names have the same key. -/
+def dupT (key : Bytes → Bytes) : Canon.JV → Bool
+  | .atom _ => true
+  | .arr es => dupL key es
+  | .obj ms => decide ((ms.map fun p => key p.1).Nodup) && dupM key ms
+def dupL (key : Bytes → Bytes) : List Canon.JV → Bool
+  | [] => true
+  | e :: es => dupT key e && dupL key es
+def dupM (key : Bytes → Bytes) : List (Bytes × Canon.JV) → Bool
+  | [] => true
+  | (_, v) :: ms => dupT key v && dupM key ms
+end
+
+/-- the duplicate-name test on a token list: on the tree the tokens form (slice C13's `parse`) -/
+def namesOK (key : Bytes → Bytes) (ts : List Tok) : Bool :=
+  match Canon.parse ts with
+  | some t => dupT key t
+  | none => false
 
 def tokensOK (o : FOpts) (ts : List Tok) : Bool :=
-  ts.all (strOK o) && (o.allowDup || namesOK (nameKey o) [.top0] [] ts)
+  ts.all (strOK o) && (o.allowDup || namesOK (nameKey o) ts)
 
 /-- the tokenizer under the validation options -/
 def tokenizeV (o : FOpts) (b : Bytes) : Option (List Tok) :=
